@@ -9,7 +9,7 @@ A unit's `verus` spec (python dict, see contracts/*.py):
       ret:      "r"                       name for the return value ( -> T  becomes -> (r: T) )
       header:   "requires .. ensures .."  inserted between signature and body
       loops:    [ {anchor, text} ]        text inserted before the '{' of the loop whose header contains `anchor`
-      inserts:  [ {before|after: anchor, text} ]   ghost text at statement boundaries
+      inserts:  [ {before|after: anchor, text} | {at: 'start', text} ]   ghost text at statement boundaries
       drops:    [ anchor-regex ]          (statement slices only) statements removed; listed in evidence
       rename:   new name (when two extracted fns collide)
       obligations: [str]                  human names of what the header states (for evidence)
@@ -99,7 +99,9 @@ def weave_fn(spec):
         inserts.append((ob, "\n        " + lp["text"].strip() + "\n    "))
     # --- ghost inserts ----------------------------------------------------
     for ins in spec.get("inserts", []):
-        if "before" in ins:
+        if ins.get("at") == "start":
+            a = text.find("\n", body_open) + 1
+        elif "before" in ins:
             a = _find_anchor(masked, ins["before"], "insert in " + spec["name"])
             a = text.rfind("\n", 0, a) + 1
         else:
